@@ -217,3 +217,19 @@ CHECKS["C15"] = {
         {"name": "mqttproxy", "pkg": "pkg/object/mqttproxy", "test": "TestVerifC15", "inject": [BROKERRIG], "instrument": BROKERINSTR, "workers": 5},
     ],
 }
+
+CHECKS["C16"] = {
+    "level": "model_checking",
+    "technique": "exhaustive enumeration of connection-event histories for one client id on the real broker goroutines (quiescence by testing/synctest), reference session model",
+    "level_text": "every well-formed sequence of events {connect clean, connect non-clean (takeover when one is open), subscribe t1/t2, unsubscribe, network drop of the current connection, network drop of a superseded "
+                  "connection (= the moment its read loop notices), admin session delete} up to the bound, on the real Broker with raw MQTT clients; after every event probe messages on every topic and the broker's "
+                  "registration/session map are compared with the reference session model (DESIGN A.6)",
+    "level_note": "events are separated by quiescence (synctest.Wait), i.e. the interleaving of goroutines inside one event is the Go runtime's; up to 3 connections per history",
+    "rule": "choice tree over the events enabled in each state; distinct_nontrivial = distinct event histories",
+    "explanation": "states = executions (event histories run on a fresh real broker); transitions = executions",
+    "bounds": {"quick": "histories of 5 events", "thorough": "histories of 7 events"},
+    "assumptions": ["synctest.Wait quiescence"],
+    "units": [
+        {"name": "mqttproxy", "pkg": "pkg/object/mqttproxy", "test": "TestVerifC16", "inject": [BROKERRIG], "instrument": BROKERINSTR},
+    ],
+}
